@@ -6,7 +6,7 @@ element order), MUSTCALL (readUnformatted goes through tryConvertTo)."""
 import re
 
 from ..facts import extract, units_matching, Program, AnalysisBroken, sx_find, sx_str
-from ..match import (ev_write, is_call, call_args, call_obj, field_of, var_of, guard_blocks, branch_edges)
+from ..match import (ev_write, is_call, call_args, call_obj, field_of, var_of, guard_blocks, branch_edges, implied_edges, only_via)
 from .c18 import _is_lit, _in_loop
 
 UNITS = r"SimTKcommon/src/(String|Xml)\.cpp$|SimTKcommon/BigMatrix/src/MatrixHelper\.cpp$"
@@ -28,9 +28,117 @@ def run(chk, tier, overlays=()):
     mustcheck(chk, P)
     table(chk, P)
     agree(chk, P)
+    xmlesc(chk, overlays)
+    chk.floor("XMLESC", 18)
     chk.floor("MUSTCHECK", 8)
     chk.floor("TABLE", 6)
     chk.floor("AGREE", 25)
+
+
+XML_UNITS = r"SimTKcommon/src/tinyxml(parser)?\.cpp$"
+XML_HDR = r"SimTKcommon/src/tinyxml\.h$"
+XML_ENTITIES = {"&amp;": 38, "&lt;": 60, "&gt;": 62, "&quot;": 34, "&apos;": 39}   # XML 1.0 section 4.6 (predefined entities)
+QUOTE_CHARS = {34, 39}
+# the only writers that may leave quote characters unescaped: character data of an element is not delimited by quotes
+KEEP_QUOTES_ALLOWED = {"SimTK::TiXmlText::Print": "element text", "SimTK::TiXmlPrinter::Visit": "element text (TiXmlText overload only)"}
+
+
+def xmlesc(chk, overlays):
+    chk.rule("XMLESC", "XML writer / reader agreement on the five predefined entities: the entity table maps each entity to its character with its true length; EncodeString "
+             "replaces each of the five characters by the table entry of that character (both pointer and length from the same entry), the quote characters unconditionally "
+             "unless keepQuotes; keepQuotes=true is passed only by the writers of element text (never for attribute values, which are delimited by quote characters); "
+             "GetEntity decodes with the same table, using one index for text, length and character")
+    units = units_matching(XML_UNITS)
+    chk.require(len(units) == 2, "expected tinyxml.cpp and tinyxmlparser.cpp")
+    P = Program(extract(units, hdr=XML_HDR, overlays=overlays))
+    chk.units += units
+    chk.nfunctions += len(P.fns)
+    ent = [s for s in P.statics.values() if s["name"] == "SimTK::TiXmlBase::entity" and s.get("init") is not None]
+    chk.require(len(ent) == 1, "TiXmlBase::entity table with initialiser not found")
+    rows = []
+    for r in ent[0]["init"][1]:
+        c = r[1] if isinstance(r, list) and r[0] == "initlist" else []
+        if len(c) == 3 and c[0][0] == "str" and c[1][0] == "lit" and c[2][0] == "lit":
+            rows.append((c[0][1], int(c[1][1]), int(c[2][1])))
+    site = "%s:%d" % (ent[0]["file"], ent[0]["line"])
+    chk.judge(len(rows) == len(XML_ENTITIES), "XMLESC", "table:five-entities", site, "entity table has %d parsed rows" % len(rows))
+    for k, (text, ln, ch) in enumerate(rows):
+        chk.judge(XML_ENTITIES.get(text) == ch, "XMLESC", "table:%s->chr" % text, site, "%s decodes to character %d (XML: %s)" % (text, ch, XML_ENTITIES.get(text)))
+        chk.judge(ln == len(text), "XMLESC", "table:%s:length" % text, site, "stored length %d, text length %d" % (ln, len(text)))
+    idx_of = {ch: k for k, (_, _, ch) in enumerate(rows)}
+    # writer
+    f = (P.fns_named("SimTK::TiXmlBase::EncodeString") or [None])[0]
+    chk.require(f is not None, "anchor vanished: TiXmlBase::EncodeString")
+    kq = f.d["params"][2][0] if len(f.d.get("params", [])) >= 3 else None
+    chk.judge(kq is not None, "XMLESC", "EncodeString:keepQuotes-parameter", f.loc, "third parameter %s" % kq)
+    cvar = None
+    for ch in sorted(idx_of):
+        def isch(c, ch=ch):
+            return isinstance(c, list) and c[0] == "op" and c[1] == "==" and var_of(c[2]) is not None and isinstance(c[3], list) and c[3][0] == "lit" and c[3][1] == str(ch)
+        edges = implied_edges(f, [isch])
+        apps = []
+        for b, i, e in f.calls():
+            if not str(e.get("fn", "")).endswith("::append"):
+                continue
+            a = call_args(e)
+            ks = [y for x in a for y in sx_find(x, lambda y: y[0] == "mem" and isinstance(y[1], list) and y[1][0] == "idx" and y[1][1] == ["gvar", "SimTK::TiXmlBase::entity"])]
+            if ks and only_via(f, b, edges) and not any(only_via(f, b, implied_edges(f, [lambda c, o=o: isinstance(c, list) and c[0] == "op" and c[1] == "==" and isinstance(c[3], list) and c[3] == ["lit", str(o)] and var_of(c[2]) is not None])) for o in idx_of if o != ch and o != 38):
+                apps.append((b, e, ks))
+        # '&' also guards the character-reference pass-through; keep the appends that use the table
+        name = rows[idx_of[ch]][0]
+        ok = len(apps) == 1
+        det = "%d table appends under `c == %d`" % (len(apps), ch)
+        if ok:
+            b, e, ks = apps[0]
+            used = sorted({(y[1][2][1], y[2].split("::")[-1]) for y in ks})
+            ok = used == [(str(idx_of[ch]), "str"), (str(idx_of[ch]), "strLength")]
+            det = "appends %s (expected entry %d = %s, text and length)" % (used, idx_of[ch], name)
+            # quote characters: escaped whenever !keepQuotes; the others independent of keepQuotes
+            dep = bool(kq) and only_via(f, b, implied_edges(f, [lambda c: isinstance(c, list) and c[0] == "un" and c[1] == "!" and var_of(c[2]) == kq]))
+            free = bool(kq) and not any(sx_find(f.blocks[bb]["term"]["cond"], lambda y: y[0] == "var" and y[1] == kq) for bb, tt in edges)
+            if ch in QUOTE_CHARS:
+                # reached from `c == ch && !keepQuotes` only; nothing else may narrow it
+                conds = [f.blocks[bb]["term"]["cond"] for bb, tt in edges if f.blocks[bb]["term"]["k"] == "if"]
+                exact = all(isinstance(c, list) and c[0] == "op" and c[1] == "&&" and len([y for y in sx_find(c, lambda y: y[0] == "var")]) == 2 for c in conds)
+                chk.judge(dep and exact, "XMLESC", "EncodeString:%s:escaped-unless-keepQuotes" % name, "%s:%d" % (f.file, e["line"]), "quote is escaped exactly when !%s" % kq)
+            else:
+                chk.judge(free, "XMLESC", "EncodeString:%s:always-escaped" % name, "%s:%d" % (f.file, e["line"]), "escaping of %s does not depend on %s" % (name, kq))
+        chk.judge(ok, "XMLESC", "EncodeString:%s<-entity[%d]" % (name, idx_of[ch]), f.loc, det)
+    # who may keep quotes
+    n = 0
+    seen_keys = {}
+    for g in P.all_fns():
+        for b, i, e in g.calls():
+            if not str(e.get("fn", "")).endswith("TiXmlBase::EncodeString"):
+                continue
+            a = call_args(e)
+            n += 1
+            third = a[2] if len(a) > 2 else ["lit", "false"]
+            keeps = not (isinstance(third, list) and third[0] == "lit" and third[1] == "false")
+            seen_keys[(g.name, sx_str(a[0])[:30])] = seen_keys.get((g.name, sx_str(a[0])[:30]), 0) + 1
+            key = "%s:EncodeString(%s)#%d" % (g.name.replace("SimTK::", ""), sx_str(a[0])[:30], seen_keys[(g.name, sx_str(a[0])[:30])])
+            if not keeps:
+                chk.ok("XMLESC", key + ":quotes-escaped", "%s:%d" % (g.file, e["line"]), "keepQuotes=false")
+                continue
+            allowed = g.name in KEEP_QUOTES_ALLOWED and (g.name != "SimTK::TiXmlPrinter::Visit" or "TiXmlText" in g.id) and isinstance(third, list) and third[0] == "lit"
+            chk.judge(allowed, "XMLESC", key + ":keepQuotes-only-for-element-text", "%s:%d" % (g.file, e["line"]),
+                      "%s writes with quotes unescaped; only element text (%s) may do that -- attribute values are delimited by quote characters" % (g.name, sorted(KEEP_QUOTES_ALLOWED)))
+    chk.judge(n >= 5, "XMLESC", "EncodeString-call-sites>=5", "", "%d call sites examined" % n)
+    # attribute delimiters: value is written between quote characters, hence must have been encoded with quotes escaped (covered above); name too
+    # reader
+    g = (P.fns_named("SimTK::TiXmlBase::GetEntity") or [None])[0]
+    chk.require(g is not None, "anchor vanished: TiXmlBase::GetEntity")
+    lv = set()
+    fields = set()
+    for b, i, e in list(g.events(lambda e: e["k"] in ("call", "assign", "ret"))):
+        for x in ([e.get("x")] if e["k"] == "call" else [e.get("lhs"), e.get("rhs"), e.get("val")]):
+            for y in sx_find(x, lambda y: y[0] == "mem" and isinstance(y[1], list) and y[1][0] == "idx" and y[1][1] == ["gvar", "SimTK::TiXmlBase::entity"]) if x is not None else []:
+                lv.add(sx_str(y[1][2]))
+                fields.add(y[2].split("::")[-1])
+    chk.judge(len(lv) == 1 and {"str", "strLength", "chr"} <= fields, "XMLESC", "GetEntity:one-index-for-text-length-character", g.loc, "indices used %s, fields %s" % (sorted(lv), sorted(fields)))
+    loops = [h for h in g.loops() if g.blocks[h].get("term") and g.blocks[h]["term"].get("cond") is not None and
+             sx_find(g.blocks[h]["term"]["cond"], lambda y: (y[0] in ("enum", "gvar", "var") and "NUM_ENTITY" in str(y[1])) or (y[0] == "lit" and y[1] == str(len(rows))))]
+    chk.judge(len(loops) == 1, "XMLESC", "GetEntity:loops-over-the-whole-table", g.loc, "loop bounded by NUM_ENTITY found: %d" % len(loops))
 
 
 def _is_extraction(e):
@@ -195,7 +303,16 @@ def agree(chk, P):
 _S = "SimTKcommon/src/String.cpp"
 _H = "SimTKcommon/include/SimTKcommon/internal/String.h"
 _Z = "SimTKcommon/include/SimTKcommon/internal/Serialize.h"
+_T = "SimTKcommon/src/tinyxml.cpp"
+_TP = "SimTKcommon/src/tinyxmlparser.cpp"
 MUTATIONS = [
+    dict(name="seeded (sub-agent): attribute values written with quotes unescaped", arm=True, file=_T,
+         old="    EncodeString( name, &n );\n    EncodeString( value, &v );", new="    EncodeString( name, &n );\n    EncodeString( value, &v, true );", expect="XMLESC:TiXmlAttribute::Print:EncodeString(this.value)"),
+    dict(name="'>' written as the '<' entity (copy-paste)", file=_T,
+         old="            outString->append( entity[2].str, entity[2].strLength );", new="            outString->append( entity[1].str, entity[1].strLength );", expect="XMLESC:EncodeString:&gt;<-entity[2]"),
+    dict(name="entity table lists &apos; with the wrong length", file=_TP,
+         old="    { \"&apos;\", 6, '\\'' }", new="    { \"&apos;\", 5, '\\'' }", expect="XMLESC:table:&apos;:length"),
+
     dict(name="tryConvertToDouble accepts trailing characters (pre-fix code)", arm=True, file=_S,
          old="    {   out = -NTraits<double>::getInfinity(); return true;}\n    std::istringstream sstream(adjusted);\n    sstream >> out;\n    return extractionUsedWholeString(sstream);",
          new="    {   out = -NTraits<double>::getInfinity(); return true;}\n    std::istringstream sstream(adjusted);\n    sstream >> out;\n    return !sstream.fail();",
